@@ -6,19 +6,20 @@
   records: JWS parsing and signature verification are parameters, `signedBy` is the crypto fact),
   instants (`Int` nanoseconds), replay memories, histories and schedules.
 
-  Two parts of the statement are FALSE for the code as it stands; the model is faithful, so each has
-  a counterexample theorem next to a `_partial` theorem whose hypothesis excludes the witness:
+  Two parts of the statement were FALSE for the code at the pinned commit; the model was faithful and
+  carried a counterexample theorem next to a `_partial` theorem for each.  Both are repaired in /repo
+  and the model follows the repaired code, so the full statements are theorems now and the former
+  witnesses are kept as regression theorems (they evaluate the model on the exact failing input):
 
-    * exp = 0.  `MapClaims.Valid()` treats the number 0 as "no exp claim" (`verifyExp`: `exp == 0 →
-      !required`), the later type switch accepts it, so a client assertion that expired in 1970
-      authenticates — and its replay record is purged at the next `SetClientAssertionJWT`, so it can be
-      replayed without bound.            `client_assertion_complete_counterexample`
-    * the window [exp, exp + 1 s).  `Valid()` compares whole seconds (`⌊now⌋ ≤ exp`), the replay memory
-      nanoseconds (`exp.After(now)`, purge `e.Before(now)`): a replay at exp + 0.5 s is accepted again,
-      sequentially and concurrently.    `jti_once_client_assertion_counterexample`,
-                                        `jti_once_concurrent_client_assertion_counterexample`
+    * exp = 0 (repair 72d22c6).  `MapClaims.Valid()` treats the number 0 as "no exp claim", the later type
+      switch accepted it, so a client assertion that expired in 1970 authenticated — and its replay
+      record was purged at the next `SetClientAssertionJWT`.       `exp_zero_refused`
+    * the window [exp, exp + 1 s) (repair b819172).  `Valid()` compares whole seconds (`⌊now⌋ ≤ exp`), the
+      replay memory nanoseconds: a replay at exp + 0.5 s was accepted again, sequentially and
+      concurrently.  The record now lives until (exp + 1) s.      `f4_window_replay_refused`,
+                                                                  `f4_window_concurrent_refused`
 
-  The JWT-bearer path has neither defect (go-jose's `NumericDate` is compared at full resolution
+  The JWT-bearer path had neither defect (go-jose's `NumericDate` is compared at full resolution
   and `MarkJWTUsedForTime` refuses at equality).
 -/
 import Fosite.Proofs.Assertion
@@ -27,20 +28,18 @@ open Fosite.Model.Assertion Fosite.Spec.Assertion Fosite.Proofs.Assertion
 
 /-! ### 1. client assertions are verified completely -/
 
-/-- the expiry clause the code actually enforces: second 0 passes as "no exp" -/
-def unexpiredOrZero (now : Int) (e : Int) : Prop := e = 0 ∨ nowSec now ≤ e
-
-/-- UNCONDITIONAL: an authenticated client assertion is a JWS signed (for the algorithm its header
-    names) by a `use = sig` key registered for the authenticated client; the algorithm is the
-    client's registered one and asymmetric; iss = sub = client id; aud names a configured token URL;
-    the exp second is not in the past (or is 0 — see the counterexample); the jti is a non-empty
-    string without a live record in the memory, and it is recorded until exp afterwards. -/
-theorem client_assertion_complete_but_exp_zero (cfg : Config) (clients : List ClientReg) (formId : String)
+/-- An authenticated client assertion is a JWS signed (for the algorithm its header names) by a
+    `use = sig` key registered for the authenticated client; the algorithm is the client's registered
+    one and asymmetric; iss = sub = client id; aud names a configured token URL; the exp second is
+    positive and not in the past; the jti is a non-empty string without a live record in the memory,
+    and it is recorded until the end of the exp second afterwards. -/
+theorem client_assertion_complete_core (cfg : Config) (clients : List ClientReg) (formId : String)
     (w : Wire) (now : Int) (st st' : JtiStore) (cid : String)
     (h : clientAssertionAuth cfg clients formId w now st = (.ok cid, st')) :
-    ∃ j, w = .jws j ∧ ClientAssertionOKWith (unexpiredOrZero now) cfg clients j cid ∧
+    ∃ j, w = .jws j ∧ ClientAssertionOK cfg clients j now cid ∧
       JtiPresentFresh j st now ∧
-      ∃ jti E, j.claims.jti = .str jti ∧ j.claims.exp.toInt64 = some E ∧ lookup st' jti = some (E * second) := by
+      ∃ jti E, j.claims.jti = .str jti ∧ j.claims.exp.toInt64 = some E ∧ 0 < E ∧
+        lookup st' jti = some ((E + 1) * second) := by
   obtain ⟨t, E, hpre, hvalid, hE, hset, hfin⟩ := clientAuth_ok h
   obtain ⟨hw, ⟨cid', hcid, hget, hiss, hsub⟩, hkey, hver, hval, hurls, hjti, hjne⟩ := clientPre_ok hpre
   obtain ⟨hmem, hid⟩ := getClient_some hget
@@ -58,10 +57,14 @@ theorem client_assertion_complete_but_exp_zero (cfg : Config) (clients : List Cl
   have hcid' : cid' = cid := by rw [hcc, hid]
   subst hcid'
   have hexp := clientExpiry_ok hE
+  have hpos := clientExpiry_pos hE
   obtain ⟨hset1, hset2⟩ := jtiSet_false hset
   refine ⟨t.jws, hw, ⟨t.client, hmem, hid, ⟨t.key, hreg, huse, hver⟩, halg.symm, hfam, (verifyIssuer_true hiss).1, hsub,
-    audMatchesAny_contains haud, ?_⟩, ?_, t.jti, E, hjti, hexp, ?_⟩
-  · unfold expSatisfies; rw [hexp]; exact claimsValid_exp hval hexp
+    audMatchesAny_contains haud, ?_⟩, ?_, t.jti, E, hjti, hexp, hpos, ?_⟩
+  · unfold expSatisfies; rw [hexp]
+    rcases claimsValid_exp hval hexp with h0 | h1
+    · omega
+    · exact h1
   · unfold JtiPresentFresh; rw [hjti]
     refine ⟨hjne, fun e he => ?_⟩
     unfold jtiValid at hvalid
@@ -76,27 +79,14 @@ def ClientAssertionComplete : Prop :=
     (cid : String), clientAssertionAuth cfg clients formId w now st = (.ok cid, st') →
     ∃ j, w = .jws j ∧ ClientAssertionOK cfg clients j now cid ∧ JtiPresentFresh j st now
 
-/-- `_partial`: the full statement for every assertion whose exp is not the number 0 (or 0.x). -/
-theorem client_assertion_complete_partial (cfg : Config) (clients : List ClientReg) (formId : String)
-    (w : Wire) (now : Int) (st st' : JtiStore) (cid : String)
-    (hz : ∀ j, w = .jws j → j.claims.exp.toInt64 ≠ some 0)
-    (h : clientAssertionAuth cfg clients formId w now st = (.ok cid, st')) :
-    ∃ j, w = .jws j ∧ ClientAssertionOK cfg clients j now cid ∧ JtiPresentFresh j st now := by
-  obtain ⟨j, hw, hok, hfresh, _⟩ := client_assertion_complete_but_exp_zero cfg clients formId w now st st' cid h
-  refine ⟨j, hw, ?_, hfresh⟩
-  obtain ⟨c, hc, h1, h2, h3, h4, h5, h6, h7, h8⟩ := hok
-  refine ⟨c, hc, h1, h2, h3, h4, h5, h6, h7, ?_⟩
-  unfold expSatisfies at h8 ⊢
-  cases he : j.claims.exp.toInt64 with
-  | none => rw [he] at h8; exact h8
-  | some e =>
-    rw [he] at h8
-    rcases h8 with h0 | h1
-    · subst h0; exact absurd he (hz j hw)
-    · exact h1
+/-- The full statement, for every assertion (before repair 72d22c6: only for exp ≠ 0). -/
+theorem client_assertion_complete : ClientAssertionComplete := by
+  intro cfg clients formId w now st st' cid h
+  obtain ⟨j, hw, hok, hfresh, _⟩ := client_assertion_complete_core cfg clients formId w now st st' cid h
+  exact ⟨j, hw, hok, hfresh⟩
 
-/-! the witness: client `c` (RS256, key `K` under kid `k`), token URL `u`, an assertion with `exp: 0`
-    presented on 2000-01-01 -/
+/-! the former witness: client `c` (RS256, key `K` under kid `k`), token URL `u`, an assertion with
+    `exp: 0` presented on 2000-01-01 -/
 
 def wCfg : Config := ⟨["u"]⟩
 def wClients : List ClientReg := [⟨"c", true, "private_key_jwt", "RS256", some [⟨"k", "sig", .rsa, "K"⟩]⟩]
@@ -105,24 +95,17 @@ def wToken (exp : Claim) : Wire :=
 /-- 2000-01-01T00:00:00Z, where a synctest bubble starts -/
 def y2k : Int := 946684800 * second
 
-theorem exp_zero_accepted :
-    clientAssertionAuth wCfg wClients "" (wToken (.int 0)) y2k [] = (.ok "c", [("j", 0)]) := by decide
+/-- REGRESSION (72d22c6): an assertion with `exp: 0` is refused and leaves no record (it used to
+    authenticate: `(.ok "c", [("j", 0)])`). -/
+theorem exp_zero_refused :
+    clientAssertionAuth wCfg wClients "" (wToken (.int 0)) y2k [] = (.err .invalid_client, []) := by decide
 
-/-- an assertion that expired in 1970 authenticates -/
-theorem client_assertion_complete_counterexample : ¬ ClientAssertionComplete := by
-  intro hall
-  obtain ⟨j, hw, hok, _⟩ := hall wCfg wClients "" (wToken (.int 0)) y2k [] _ "c" exp_zero_accepted
-  injection hw with hw
-  subst hw
-  revert hok
-  decide
-
-/-- … and is accepted again and again: its record is purged by the next `SetClientAssertionJWT` -/
-theorem exp_zero_replayed_without_bound :
+/-- … at every later presentation too (it used to be accepted again and again) -/
+theorem exp_zero_never_accepted :
     runSeq (clientStep wCfg wClients .token)
       [(0, ("", wToken (.int 0))), (1, ("", wToken (.int 0))), (1000000000, ("", wToken (.int 0))),
        (3600000000000, ("", wToken (.int 0)))] y2k [] =
-    [.ok "c", .ok "c", .ok "c", .ok "c"] := by decide
+    [.err .invalid_client, .err .invalid_client, .err .invalid_client, .err .invalid_client] := by decide
 
 /-- through the endpoints: PAR only rewraps errors, the device endpoint only adds a rejection -/
 theorem client_assertion_at_endpoint (cfg : Config) (clients : List ClientReg) (ep : Endpoint)
@@ -275,52 +258,31 @@ def JtiOnceClientAssertion : Prop :=
     ((hist.zip (runSeq (clientStep cfg clients ep) hist now st)).filter
       (fun x => hasTicket j E x.1.2.2 && x.2.isOk)).length ≤ 1
 
-/-- F4: exp = T; first use at T − 10 s; replay at T + 0.5 s — accepted twice. -/
-theorem f4_witness :
-    runSeq (clientStep wCfg wClients .token)
-      [(50000000000, ("", wToken (.int 946684860))), (10500000000, ("", wToken (.int 946684860)))] y2k [] =
-    [.ok "c", .ok "c"] := by decide
-
-theorem jti_once_client_assertion_counterexample : ¬ JtiOnceClientAssertion := by
-  intro hall
-  have := hall wCfg wClients .token
-    [(50000000000, ("", wToken (.int 946684860))), (10500000000, ("", wToken (.int 946684860)))] y2k []
-    "j" 946684860 (by decide)
-  revert this
-  decide
-
-/-- `_partial`: for assertions with exp ≠ 0, in every history in which no presentation of the ticket
-    falls strictly inside (exp, exp + 1 s), at most one presentation is accepted. -/
-theorem jti_once_client_assertion_partial (cfg : Config) (clients : List ClientReg) (ep : Endpoint)
-    (hist : List (Nat × (String × Wire))) (now : Int) (st : JtiStore) (j : String) (E : Int) (hE : E ≠ 0)
-    (hwin : AllAt (fun (a : String × Wire) t => hasTicket j E a.2 = true → OutsideWindow E t) hist now) :
+/-- Client assertions, EVERY history (any assertions, any endpoint, any time advances, any initial
+    memory): among the presentations carrying jti `j` and exp second `E`, at most one is accepted.
+    (Before repairs 72d22c6 / b819172 this needed `E ≠ 0` and no presentation inside (exp, exp + 1 s).) -/
+theorem jti_once_client_assertion_all (cfg : Config) (clients : List ClientReg) (ep : Endpoint)
+    (hist : List (Nat × (String × Wire))) (now : Int) (st : JtiStore) (j : String) (E : Int) :
     ((hist.zip (runSeq (clientStep cfg clients ep) hist now st)).filter
       (fun x => hasTicket j E x.1.2.2 && x.2.isOk)).length ≤ 1 := by
   rw [← countOk_eq_filter (fun a : String × Wire => hasTicket j E a.2)]
-  exact count_le_one _ _ (Blocked j E) (fun _ t => OutsideWindow E t) (fun _ _ _ h hn => blocked_mono h hn)
-    (fun a st now h => clientStep_keeps cfg clients ep j E a st now h)
-    (fun a st now hp hw ho => clientStep_accepts cfg clients ep j E hE a st now hp hw ho) hist now st hwin
-
-/-- all presentations happen at whole-second instants -/
-def WholeSeconds {α : Type} (hist : List (Nat × α)) : Prop := ∀ x ∈ hist, (x.1 : Int) % second = 0
-
-/-- corollary: on a clock that only shows whole seconds the window is never hit -/
-theorem jti_once_client_assertion_whole_seconds (cfg : Config) (clients : List ClientReg) (ep : Endpoint)
-    (hist : List (Nat × (String × Wire))) (now : Int) (st : JtiStore) (j : String) (E : Int) (hE : E ≠ 0)
-    (hnow : now % second = 0) (hws : WholeSeconds hist) :
-    ((hist.zip (runSeq (clientStep cfg clients ep) hist now st)).filter
-      (fun x => hasTicket j E x.1.2.2 && x.2.isOk)).length ≤ 1 := by
-  apply jti_once_client_assertion_partial cfg clients ep hist now st j E hE
+  refine count_le_one _ _ (Blocked j (E + 1)) (fun _ _ => True) (fun _ _ _ h hn => blocked_mono h hn)
+    (fun a st now h => clientStep_keeps cfg clients ep j (E + 1) a st now h)
+    (fun a st now hp _ ho => clientStep_accepts cfg clients ep j E a st now hp ho) hist now st ?_
   clear st
   induction hist generalizing now with
   | nil => trivial
-  | cons x rest ih =>
-    obtain ⟨dt, a⟩ := x
-    have hdt : (dt : Int) % second = 0 := hws (dt, a) List.mem_cons_self
-    have hnext : (now + dt) % second = 0 := by unfold second at *; omega
-    refine ⟨fun _ => ?_, ih _ hnext (fun y hy => hws y (List.mem_cons_of_mem _ hy))⟩
-    unfold OutsideWindow second at *
-    omega
+  | cons x rest ih => exact ⟨fun _ => trivial, ih _⟩
+
+theorem jti_once_client_assertion : JtiOnceClientAssertion :=
+  fun cfg clients ep hist now st j E _ => jti_once_client_assertion_all cfg clients ep hist now st j E
+
+/-- REGRESSION (b819172), F4: exp = T; first use at T − 10 s; replay at T + 0.5 s — the replay is refused
+    (it used to be accepted: `[.ok "c", .ok "c"]`). -/
+theorem f4_window_replay_refused :
+    runSeq (clientStep wCfg wClients .token)
+      [(50000000000, ("", wToken (.int 946684860))), (10500000000, ("", wToken (.int 946684860)))] y2k [] =
+    [.ok "c", .err .jti_known] := by decide
 
 /-! ### 4. a jti is accepted at most once — concurrent presentations
 
@@ -375,20 +337,10 @@ def JtiOnceConcurrentClientAssertion : Prop :=
     acceptedCount (runSched (clientProto cfg clients formId w now) now sched fuel
       ⟨List.replicate n .start, st⟩).pcs ≤ 1
 
-/-- two simultaneous presentations at exp + 0.5 s, one after the other: both accepted -/
-theorem jti_once_concurrent_client_assertion_counterexample : ¬ JtiOnceConcurrentClientAssertion := by
-  intro hall
-  have := hall wCfg wClients "" (wToken (.int 946684860)) (y2k + 60500000000) [] 2 (fun k => k / 3) 6
-  revert this
-  decide
-
-/-- `_partial`: outside the window (and exp ≠ 0) every interleaving accepts at most one copy. -/
-theorem jti_once_concurrent_client_assertion_partial (cfg : Config) (clients : List ClientReg)
-    (formId : String) (w : Wire) (now : Int) (st : JtiStore)
-    (hwin : ∀ x E, w = .jws x → x.claims.exp.toInt64 = some E → E ≠ 0 ∧ OutsideWindow E now)
-    (n : Nat) (sched : Nat → Nat) (fuel : Nat) :
-    acceptedCount (runSched (clientProto cfg clients formId w now) now sched fuel
-      ⟨List.replicate n .start, st⟩).pcs ≤ 1 := by
+/-- Client assertions: any number of copies, any scheduler, any memory, any instant: every interleaving
+    accepts at most one copy.  (Before the repairs: only outside the window and for exp ≠ 0.) -/
+theorem jti_once_concurrent_client_assertion : JtiOnceConcurrentClientAssertion := by
+  intro cfg clients formId w now st n sched fuel
   unfold runSched
   apply schedule_at_most_one
   · unfold clientProto
@@ -407,21 +359,32 @@ theorem jti_once_concurrent_client_assertion_partial (cfg : Config) (clients : L
         dsimp only
         obtain ⟨hw, _, _, _, hval, _⟩ := clientPre_ok hpre
         have hexp := clientExpiry_ok hE
-        obtain ⟨h0, hout⟩ := hwin t.jws E hw hexp
+        have hpos := clientExpiry_pos hE
         rcases claimsValid_exp hval hexp with hz | hs
-        · exact absurd hz h0
+        · omega
         · have := nowSec_le hs
-          rcases hout with ho | ho
-          · exact ho
-          · omega
+          omega
+
+/-- REGRESSION (b819172): two simultaneous presentations at exp + 0.5 s of an assertion already used,
+    one after the other — none is accepted (both used to be). -/
+theorem f4_window_concurrent_refused :
+    acceptedCount (runSched (clientProto wCfg wClients "" (wToken (.int 946684860)) (y2k + 60500000000))
+      (y2k + 60500000000) (fun k => k / 3) 6 ⟨List.replicate 2 .start, [("j", 946684861 * second)]⟩).pcs = 0 := by
+  decide
+
+/-- … and two fresh simultaneous presentations at exp + 0.5 s: exactly one is accepted -/
+theorem f4_window_concurrent_one :
+    acceptedCount (runSched (clientProto wCfg wClients "" (wToken (.int 946684860)) (y2k + 60500000000))
+      (y2k + 60500000000) (fun k => k / 3) 6 ⟨List.replicate 2 .start, []⟩).pcs = 1 := by
+  decide
 
 /-! ### non-vacuity -/
 
 /-- a complete assertion authenticates … -/
 example : clientAssertionAuth wCfg wClients "" (wToken (.int 946684860)) y2k [] =
-    (.ok "c", [("j", 946684860 * second)]) := by decide
+    (.ok "c", [("j", 946684861 * second)]) := by decide
 /-- … its replay one nanosecond later does not … -/
-example : (clientAssertionAuth wCfg wClients "" (wToken (.int 946684860)) (y2k + 1) [("j", 946684860 * second)]).1 =
+example : (clientAssertionAuth wCfg wClients "" (wToken (.int 946684860)) (y2k + 1) [("j", 946684861 * second)]).1 =
     .err .jti_known := by decide
 /-- … nor does a copy signed by an unregistered key, or with the wrong audience, or HS256 -/
 example : (clientAssertionAuth wCfg wClients "" (.jws ⟨"RS256", "k", some "X",
@@ -429,7 +392,7 @@ example : (clientAssertionAuth wCfg wClients "" (.jws ⟨"RS256", "k", some "X",
   decide
 example : clientAssertionAuth wCfg wClients "" (.jws ⟨"RS256", "k", some "K",
     ⟨.str "c", .str "c", .str "v", .int 946684860, .absent, .absent, .str "j"⟩⟩) y2k [] =
-    (.err .invalid_client, [("j", 946684860 * second)]) := by decide
+    (.err .invalid_client, [("j", 946684861 * second)]) := by decide
 example : (clientAssertionAuth wCfg wClients "" (.jws ⟨"HS256", "k", some "K",
     ⟨.str "c", .str "c", .str "u", .int 946684860, .absent, .absent, .str "j"⟩⟩) y2k []).1 = .err .invalid_client := by
   decide
@@ -446,7 +409,7 @@ example : (jwtBearer wBCfg exactScopes wKeys wBToken ["b"] (y2k + 1) []).1 = .er
 example : runSeq (bearerStep wBCfg exactScopes wKeys) [(1, (wBToken, ["a"])), (1, (wBToken, ["a"])),
     (59999999998, (wBToken, ["a"])), (1, (wBToken, ["a"]))] y2k [] =
     [.ok "s", .err .jti_known, .err .server_error, .err .invalid_grant] := by decide
-/-- the window hypothesis is satisfiable: instants up to exp and from exp + 1 s on -/
+/-- the former window: instants up to exp and from exp + 1 s on are outside it -/
 example : OutsideWindow 946684860 (y2k + 60000000000) ∧ OutsideWindow 946684860 (y2k + 61000000000) ∧
     ¬ OutsideWindow 946684860 (y2k + 60500000000) := by
   refine ⟨?_, ?_, ?_⟩ <;> simp only [OutsideWindow, y2k, second] <;> omega
